@@ -33,7 +33,7 @@ def run(ctx) -> None:
     ctx.rule("R6", "prerequisite: the starting version follows the tag-scope rules under version.parse_version (C09/R1)")
     from sa.report import run_prerequisite
     run_prerequisite(ctx, "C03", ("R1", "R2", "R3", "R4", "R5", "R6"), "R5")
-    run_prerequisite(ctx, "C09", ("R1",), "R6")
+    run_prerequisite(ctx, "C09", ("R1", "R3", "R4"), "R6")
     ctx.rule("R8", "prerequisite: the next legitimate update is not refused - 'greater' between two versions of a non-PEP 440 pattern is pkg_resources' order (C16/R9)")
     run_prerequisite(ctx, "C16", ("R9",), "R8")
     # "... which is strictly greater than the previous one, so a further update is always possible": the gate (C01) and the
